@@ -139,6 +139,9 @@ func init() {
 		Oracle: func(line, out string) string {
 			f := strings.Fields(line)
 			n, _ := strconv.Atoi(f[2])
+			if strings.Contains(out, "panic") || out == "timeout" || out == "crash" {
+				return "every level value gets an answer (a translation, a default or an error), never a crash"
+			}
 			switch f[1] {
 			case "fromgo":
 				want := "err"
